@@ -302,6 +302,25 @@ def pair_table(rng):
         e["indt"] = indt
         return e
 
+    def diag_eq(ddt, nested=False):
+        # broadcasting diagonal that only adds singleton axes: same number of elements, different shapes
+        if nested:
+            return {"t": "diag", "dsh": [[1, 3], [2]], "ddt": ddt, "insh": [[3], [2]], "indt": None,
+                    "d": encs(vals(rng, (5,), is_cplx(ddt)))}
+        return {"t": "diag", "dsh": [1, 3], "ddt": ddt, "insh": [3], "indt": None, "d": encs(vals(rng, (3,), is_cplx(ddt)))}
+
+    for ddt in dts:
+        for nested in (False, True):
+            nm = f"diag adds singleton axis{' (block)' if nested else ''} [{ddt[0]}]"
+            for op in ("neg", "T", "H", "conj", "gram"):
+                cases.append((f"{nm} {op}", {"t": op, "a": diag_eq(ddt, nested)}))
+            for op2 in ("T", "H", "gram"):
+                cases.append((f"{nm} {op2}.{op2}", {"t": op2, "a": {"t": op2, "a": diag_eq(ddt, nested)}}))
+            if not nested:
+                for ca in ("mat", "sid", "ident", "diag", "lin"):
+                    cases.append((f"{nm} matmul {ca}", {"t": "matmul", "a": diag_eq(ddt), "b": leaf(rng, ca, sq, sq, lambda: ddt)}))
+                    cases.append((f"{nm}.T after {ca} on (1,3)", {"t": "comp", "a": {"t": "T", "a": diag_eq(ddt)}, "b": leaf(rng, "lin", sq, [1, 3], lambda: ddt)}))
+
     specials = [("lin R->C", lambda: rc_lin(True)), ("linauto R->C", lambda: rc_lin(False)),
                 ("diag real d, complex input_dtype", lambda: diag_explicit("float64", "complex128")),
                 ("diag complex d, real input_dtype", lambda: diag_explicit("complex128", "float64")),
